@@ -54,29 +54,33 @@ Definition eye (n : nat) : list (list K) :=
 Definition eqK (a b : K) : bool := leb a b && leb b a.
 
 (* ------------------------------------------------------------------------------------------------ *)
-(* splineutil.c: bspline (static; right-continuous Cox-de Boor; since fix 33ef56f a term whose denominator vanishes —
-   repeated knots — is skipped instead of dividing 0/0):
+(* splineutil.c: bspline (static; Cox-de Boor recursion; since fix 07dbb30 a term whose denominator vanishes — repeated
+   knots — is skipped instead of dividing 0/0; since fix F30_1 the flag [left] selects the side of the order-0 indicator):
      double a = 0, b = 0;
-     if (n == 0) return (x >= knots[i] && x < knots[i+1]) ? 1.0 : 0.0;
-     if (knots[i+n]   != knots[i])   a = (x - knots[i])*bspline(knots, x, i, n-1) / (knots[i+n] - knots[i]);
-     if (knots[i+n+1] != knots[i+1]) b = (knots[i+n+1] - x)*bspline(knots, x, i+1, n-1) / (knots[i+n+1] - knots[i+1]);
+     if (n == 0) return (left ? (x > knots[i] && x <= knots[i+1]) : (x >= knots[i] && x < knots[i+1])) ? 1.0 : 0.0;
+     if (knots[i+n]   != knots[i])   a = (x - knots[i])*bspline(knots, x, i, n-1, left) / (knots[i+n] - knots[i]);
+     if (knots[i+n+1] != knots[i+1]) b = (knots[i+n+1] - x)*bspline(knots, x, i+1, n-1, left) / (knots[i+n+1] - knots[i+1]);
      return a + b;
    The same function as GridModel.bspline_guarded (C17), with nat indices: C09_Basis.fit_bspline_is_guarded. *)
-Fixpoint bspline (kn : nat -> K) (x : K) (i : nat) (n : nat) : K :=
+Fixpoint bspline (kn : nat -> K) (x : K) (i : nat) (n : nat) (left : bool) : K :=
   match n with
-  | O => if leb (kn i) x && ltb x (kn (i + 1)) then one else zero          (* x >= knots[i] && x < knots[i+1] *)
+  | O => if (if left then ltb (kn i) x && leb x (kn (i + 1))               (* x > knots[i] && x <= knots[i+1] *)
+             else leb (kn i) x && ltb x (kn (i + 1)))                      (* x >= knots[i] && x < knots[i+1] *)
+         then one else zero
   | S n' =>
       add (if eqK (kn (i + n)) (kn i) then zero
-           else div (mul (sub x (kn i)) (bspline kn x i n')) (sub (kn (i + n)) (kn i)))
+           else div (mul (sub x (kn i)) (bspline kn x i n' left)) (sub (kn (i + n)) (kn i)))
           (if eqK (kn (i + n + 1)) (kn (i + 1)) then zero
-           else div (mul (sub (kn (i + n + 1)) x) (bspline kn x (i + 1) n')) (sub (kn (i + n + 1)) (kn (i + 1))))
+           else div (mul (sub (kn (i + n + 1)) x) (bspline kn x (i + 1) n' left)) (sub (kn (i + n + 1)) (kn (i + 1))))
   end.
 
-(* splineutil.c: bsplinebasis — npts rows, nknots-order-1 columns *)
+(* splineutil.c: bsplinebasis — npts rows, nknots-order-1 columns, entry (row, col) =
+   bspline(knots, x[row], col, order, x[row] >= knots[nsplines]): right-continuous below the upper end of the fully supported
+   range, left-continuous from there upwards, like pointwise evaluation (BSpline.side_of) *)
 Definition bsplinebasis (knots : list K) (xs : list K) (order : nat) : list (list K) :=
   let kn := fun i => nth i knots zero in
   let nsplines := length knots - order - 1 in
-  map (fun x => map (fun c => bspline kn x c order) (seq 0 nsplines)) xs.
+  map (fun x => map (fun c => bspline kn x c order (leb (kn nsplines) x)) (seq 0 nsplines)) xs.
 
 (* splineutil.c: box — row-wise Kronecker product: entry (row, ja*ncol_b + jb) = a[row][ja] * b[row][jb] *)
 Definition boxrow (ra rb : list K) : list K := flat_map (fun ai => map (mul ai) rb) ra.
